@@ -108,6 +108,7 @@ Inductive out :=
 | OSent
 | ORule
 | OSpawn
+| OMask
 | OInvalid                             (* script names a gate that does not exist *)
 | OPanic (site : N)
 | OOutOfFuel.
@@ -240,6 +241,19 @@ Fixpoint legs (budget : nat) (gs : gates) (rules : list rule) (h : header) (cur 
   | _, _ => []
   end.
 
+(* channel.rs Buffer (the queue of a busy ChannelDropBehaviour::Queue channel):
+   VecDeque<(Message, Connection)>; a message is a number here *)
+Definition buffer := list (N * conn).
+(* Buffer::enqueue: `con.channel = None; packets.push_back((msg, con))` *)
+Definition enqueue (b : buffer) (m : N) (con : conn) : buffer :=
+  b ++ [(m, {| endpoint := endpoint con; endpoint_id := endpoint_id con; channel := None |})].
+(* Buffer::dequeue: pop_front *)
+Definition dequeue (b : buffer) : option ((N * conn) * buffer) :=
+  match b with [] => None | x :: r => Some (x, r) end.
+(* send_message on the dequeued pair: `Connection { channel: Some(self.clone()), ..via }` *)
+Definition restore (ch : chan) (via : conn) : conn :=
+  {| endpoint := endpoint via; endpoint_id := endpoint_id via; channel := Some ch |}.
+
 (* ---- scripts ---- *)
 Inductive op :=
 | Connect (a b : N) (ch : option chan)
@@ -248,7 +262,9 @@ Inductive op :=
 | Relay (g g' d : N)
 (* run time, inside at_sim_start: module [caller] executes the call; who executes it does not matter *)
 | Spawn (caller target size : N)              (* target.spawner().gate(name, size): the gates belong to [target] *)
-| RConnect (caller a b : N) (ch : option chan).
+| RConnect (caller a b : N) (ch : option chan)
+(* m <> 0: arrival times are not reported (scripts in which messages wait in channel queues: the waiting time is C07's subject) *)
+| Mask (m : N).
 
 Definition any_poisoned (s : state) (l : list N) : bool := existsb (is_poisoned s) l.
 
@@ -313,6 +329,7 @@ Definition step (s : state) (o : op) : state * out :=
   | Relay g g' _ => (s, match lookup (sgates s) g, lookup (sgates s) g' with Some _, Some _ => ORule | _, _ => OInvalid end)
   | Spawn _ target size => (spawn s target size, OSpawn)
   | RConnect _ a b ch => connect s a b ch
+  | Mask _ => (s, OMask)
   end.
 
 Fixpoint exec (s : state) (ops : list op) : state * list out :=
@@ -361,6 +378,10 @@ Definition init (owners : list N) : state := {| sgates := mk_gates 0 owners; poi
         | 8 g t d b as 6, with a budget of min(b,8) relays
         | 10 c m sz  at sim start module c calls m.spawner().gate(name, sz): sz new gates owned by m
         | 11 c a b l br  at sim start module c calls a.connect(b, channel)
+        | 12 a b l br q / 13 c a b l br q  as 9 / 11 with drop behaviour q: 0 Drop, 1 Queue(None), q >= 2 Queue(Some(q-2))
+                    (which gate a message is routed to does not depend on it: a queued message resumes on the
+                    connection it was offered on, see [enqueue] / [dequeue] / [restore] below)
+        | 14 m      m <> 0: arrival times are reported as 0
       Build-time operations (1-5, 9) are executed first, in order; then, inside
       at_sim_start, the run-time ones (6-8, 10, 11) in order; records come out in that order. *)
 Definition clamp (lo hi x : N) : N := N.max lo (N.min hi x).
@@ -389,6 +410,9 @@ Definition dec_op (nm : N) (l : list N) : option (op * list N) :=
   | 8 :: g :: t :: d :: b :: r => Some (Send g t d (N.min b 8), r)
   | 10 :: c :: tg :: sz :: r => Some (Spawn (c mod nm) (tg mod nm) (clamp 1 6 sz), r)
   | 11 :: c :: a :: b :: l :: br :: r => Some (RConnect (c mod nm) a b (dec_ch l br), r)
+  | 12 :: a :: b :: l :: br :: q :: r => Some (Connect a b (dec_ch l br), r)
+  | 13 :: c :: a :: b :: l :: br :: q :: r => Some (RConnect (c mod nm) a b (dec_ch l br), r)
+  | 14 :: m :: r => Some (Mask m, r)
   | _ => None
   end.
 
@@ -407,34 +431,35 @@ Definition enc_out (o : out) : list N :=
   | OSent => [6]
   | ORule => [14]
   | OSpawn => [16]
+  | OMask => [17]
   | OInvalid => [7]
   | OOutOfFuel => [8]
   | OPanic s => [9; s]
   end.
 
-Definition enc_leg (k : N) (x : N * sres) : list N :=
+Definition enc_leg (mask : bool) (k : N) (x : N * sres) : list N :=
   match x with
-  | (leg, SDelivered d) => [11; k; leg; d_to d; d_time d; d_sender d; d_receiver d; d_last d + 1]
+  | (leg, SDelivered d) => [11; k; leg; d_to d; if mask then 0 else d_time d; d_sender d; d_receiver d; d_last d + 1]
   | (leg, SPanic s) => [12; k; leg; s]
   | (_, SOutOfFuel) => [8]
   end.
 
-Fixpoint enc_sends (k : N) (l : list (list (N * sres))) : list N :=
+Fixpoint enc_sends (mask : bool) (k : N) (l : list (list (N * sres))) : list N :=
   match l with
   | [] => []
-  | x :: r => flat_map (enc_leg k) x ++ enc_sends (k + 1) r
+  | x :: r => flat_map (enc_leg mask k) x ++ enc_sends mask (k + 1) r
   end.
 
 Definition run_script (owners : list N) (ops : list op) : list N :=
   let '(s, outs) := exec (init owners) ops in
   flat_map enc_out outs ++
   match poisoned s with
-  | [] => enc_sends 0 (map (send_one (sgates s) (rules_of (sgates s) ops)) (sends_of (sgates s) ops))
+  | [] => enc_sends (existsb (fun o => match o with Mask m => negb (m =? 0) | _ => false end) ops) 0 (map (send_one (sgates s) (rules_of (sgates s) ops)) (sends_of (sgates s) ops))
   | _ => [10]          (* a mutex is poisoned: the simulation is not run *)
   end.
 
 Definition is_rt (o : op) : bool :=
-  match o with Send _ _ _ _ | Relay _ _ _ | Spawn _ _ _ | RConnect _ _ _ _ => true | _ => false end.
+  match o with Send _ _ _ _ | Relay _ _ _ | Spawn _ _ _ | RConnect _ _ _ _ | Mask _ => true | _ => false end.
 
 Definition run (input : list N) : list N :=
   match input with
